@@ -235,6 +235,7 @@ struct Policy {
   size_t max_depth = 2048;          // nesting limit L
   u128 max_array_count = ~(u128)0;  // a definite array head declaring more members is refused
   u128 max_map_count = ~(u128)0;    // likewise for maps (pairs)
+  u128 max_string_len = ~(u128)0;   // a definite string (or chunk) longer than this is refused
 };
 struct Classified {
   bool accept = false;
@@ -301,6 +302,7 @@ static inline Classified classify(const uint8_t* b, size_t n, const Policy& pol 
         done = std::move(top->node); st.pop_back(); completes = true;
         break;
       case K_BSTR: case K_TSTR: {
+        if ((u128)h.arg > pol.max_string_len) return out(E_MEMERROR, q);
         Node s; s.type = h.kind == K_BSTR ? 2 : 3; s.bytes.assign(b + p + h.hlen, b + q);
         if (top_chunked) {
           bool same = (top->kind == K_BSTR_INDEF) == (h.kind == K_BSTR);
